@@ -161,6 +161,89 @@ def check_interleaved(ctx, ast, text, runs, cls, *, env=None, keys_prefix="~"):
     return True
 
 
+def check_after_incomplete_passes(ctx, ast, text, doc, extra, cls, *, env=None, keys_prefix="~"):
+    """ONE compiled query, ONE document object and ONE (non-empty) filter-context object across several calls: a pass
+    left incomplete (match(), an abandoned iterator, a consumer that stops after one result), then the document
+    updated in place, then full evaluations - which must give what the model gives for the document as it is NOW."""
+    import copy
+
+    import jsonpath
+
+    env = env or jsonpath.DEFAULT_ENV
+    comp = impl.call(env.compile, text)
+    if not comp.ok or not isinstance(doc, (dict, list)):
+        return True
+    d = copy.deepcopy(doc)
+    live_ctx = copy.deepcopy(extra) if extra else {"not-read-by-the-query": 1}
+    kw = {"filter_context": live_ctx}
+    case = {"class": cls, "in_place": True, "ast": ast, "text": text, "doc": doc, "extra": extra}
+    r = ctx.rng
+    for step in range(4):
+        # an incomplete pass of some kind
+        how = r.choice(["match", "abandoned-iterator", "first-of-query", "none", "exception-in-consumer"])
+        try:
+            if how == "match":
+                comp.value.match(d, **kw)
+            elif how == "abandoned-iterator":
+                it = iter(comp.value.finditer(d, **kw))
+                next(it, None)
+                del it
+            elif how == "first-of-query":
+                comp.value.query(d, **kw).first_one()
+            elif how == "exception-in-consumer":
+                for _m in comp.value.finditer(d, **kw):
+                    raise KeyError("consumer stops here")
+        except Exception:  # noqa: BLE001
+            pass
+        # the caller updates the document in place (values the filters read, and the shape)
+        _mutate(r, d)
+        try:
+            model = ref.eval_query(ast, d, extra=extra, keys_prefix=keys_prefix)
+        except ref_regex.Unsupported:
+            return True
+        ctx.evaluation()
+        got = impl.call(lambda: impl.match_records(comp.value.finditer(d, **kw)))
+        ctx.count("evaluations_after_incomplete_pass_and_in_place_update")
+        diff = got.desc() if not got.ok else impl.nodes_equal(got.value, model)
+        if diff and got.ok and impl.nodes_equal(got.value, ref.eval_query(ast, d, extra=extra, keys_prefix=keys_prefix, order="bfs")) is None:
+            diff = None
+        if diff:
+            ctx.violation("stale-result-after-an-incomplete-pass-and-an-in-place-update:%s" % cls, case, {"text": text, "step": step, "incomplete_pass": how, "diff": diff, "document_now": canon(d)[:300]})
+            return False
+        fa = impl.call(lambda: comp.value.findall(d, **kw))
+        if not fa.ok or impl.values_equal(fa.value, model):
+            ctx.violation("stale-result-after-an-incomplete-pass-and-an-in-place-update:%s" % cls, case, {"text": text, "step": step, "incomplete_pass": how, "entry_point": "findall", "diff": fa.desc() if not fa.ok else impl.values_equal(fa.value, model)})
+            return False
+    return True
+
+
+def _mutate(r, d):
+    """Change a few leaves and one container of d in place (types of leaves change too)."""
+    conts = []
+    stack = [d]
+    while stack:
+        x = stack.pop()
+        if isinstance(x, dict):
+            conts.append(x)
+            stack.extend(x.values())
+        elif isinstance(x, list):
+            conts.append(x)
+            stack.extend(x)
+    pool = [0, 1, 2, 3, 10, "a", "b", "ab", "v1", None, True, False, 2.5, [], {}, [1], {"a": 1}]
+    for _ in range(r.randint(1, 4)):
+        c = r.choice(conts)
+        if isinstance(c, dict) and c:
+            c[r.choice(list(c))] = r.choice(pool) if r.random() < 0.8 else c.get(r.choice(list(c)))
+        elif isinstance(c, list) and c:
+            c[r.randrange(len(c))] = r.choice(pool)
+        elif isinstance(c, list):
+            c.append(r.choice(pool))
+        else:
+            c["a"] = r.choice(pool)
+    if r.random() < 0.3 and isinstance(d, list) and d:
+        d.pop()
+
+
 def _ctx_names_only(ast):
     """True iff every `_`-rooted query in the AST uses name selectors only (so that a mapping which does not list all
     its names when iterated must still give the same answers)."""
